@@ -19,8 +19,9 @@ let () =
          Buffer.add_char out ' ';
          Buffer.add_string out r;
          Buffer.add_char out '\n';
-         if Buffer.length out > 1 lsl 15 then (print_string (Buffer.contents out); Buffer.clear out)
+         (* one write and one flush per outcome: when a later case kills the process, every outcome before it is in the file *)
+         print_string (Buffer.contents out); flush stdout; Buffer.clear out
        end
      done
    with End_of_file -> ());
-  print_string (Buffer.contents out)
+  print_string (Buffer.contents out); flush stdout
